@@ -2,4 +2,21 @@ package sim
 
 func init() {
 	engines["C07"] = RunPipe
+	engines["C09"] = RunStream
+	engines["C10"] = func(r *Run) { RunHistEdit(r, "marshal") }
+	engines["C13"] = func(r *Run) { RunHistEdit(r, "set") }
+	engines["C14"] = func(r *Run) { RunHistEdit(r, "delete") }
+	engines["C11"] = RunHistSerial
+	engines["C11X"] = RunCrossBuild
+	engines["C15"] = RunHistReuse
+	engines["C16"] = func(r *Run) {
+		if r.C.Intn("c16eng", 4) == 3 {
+			r.onlyOracles = map[string]bool{"held-value": true}
+			RunStream(r)
+			return
+		}
+		RunHistAlias(r)
+	}
+	engines["C17"] = RunTapeInv
+	engines["C19"] = RunFaultBlob
 }
